@@ -190,3 +190,71 @@ func VerifCondWakeups(k int, m int, holdL int, cancelOne int, earlier int) {
 	}
 	vCover("cond-terminal")
 }
+
+// VerifCondRounds: what a first round leaves behind must not cost a later waiter its wakeup.
+// Round 1: one waiter whose context is cancelled at an arbitrary moment (or has expired before the
+// call), and one Signal or Broadcast issued at an arbitrary moment once that waiter has released
+// the lock - so the wakeup races the cancellation in every order. When the waiter has come back
+// (either way), round 2: a fresh waiter enters Wait, and once it has released the lock it gets one
+// Signal or one Broadcast. It must wake, holding the lock.
+// args: round-1 wakeup (0 Signal, 1 Broadcast, 2 none), round-1 cancellation (1 arbitrary moment, 2 expired before Wait),
+//       round-2 wakeup (0 Signal, 1 Broadcast)
+//verif:case C16 quick VerifCondRounds 0..2 1..2 0..1
+func VerifCondRounds(first int, cancelKind int, second int) {
+	L := &vLocker{owner: -1}
+	c := NewContextCond(L)
+	ctx, cancel := context.WithCancel(context.Background())
+	if cancelKind == 2 {
+		cancel()
+	}
+	done1, gid1 := false, -1
+	go func() {
+		me := vGoroutineID()
+		vAtomic(func() { gid1 = me })
+		L.Lock()
+		err := c.Wait(ctx)
+		if err == nil {
+			L.Unlock()
+		}
+		vAtomic(func() { done1 = true })
+	}()
+	vAwait(func() bool { return done1 || (gid1 >= 0 && L.released[gid1]) })
+	if cancelKind == 1 {
+		go func() { cancel() }()
+	}
+	switch first {
+	case 0:
+		c.Signal()
+	case 1:
+		c.Broadcast()
+	}
+	if first == 2 && cancelKind == 1 {
+		cancel() // nobody else will end round 1
+	}
+	vAwait(func() bool { return done1 })
+	// round 2
+	woke2, owned2, gid2 := false, false, -1
+	go func() {
+		me := vGoroutineID()
+		vAtomic(func() { gid2 = me })
+		L.Lock()
+		err := c.Wait(context.Background())
+		vAtomic(func() {
+			woke2 = err == nil
+			owned2 = L.owner == me
+		})
+		if err == nil {
+			L.Unlock()
+		}
+	}()
+	vAwait(func() bool { return gid2 >= 0 && L.released[gid2] })
+	if second == 0 {
+		c.Signal()
+	} else {
+		c.Broadcast()
+	}
+	vQuiesce()
+	vAssert(woke2, "rounds/later-waiter-is-woken-whatever-the-earlier-round-left-behind")
+	vAssert(!woke2 || owned2, "wait/nil-return-holds-the-lock")
+	vCover("cond-rounds")
+}
